@@ -29,6 +29,11 @@ def patch_segment(segment: PlanarCurve):
     elif segment.degree == 2:
         vertices += list(segment.ctrlpoints[1:])
         commands += [Path.CURVE3] * 2
+    elif segment.degree == 3:
+        vertices += list(segment.ctrlpoints[1:])
+        commands += [Path.CURVE4] * 3
+    else:
+        raise ValueError("Cannot plot a segment of degree %d" % segment.degree)
     return vertices, commands
 
 
